@@ -298,6 +298,19 @@ func (w *vzWorld) installHooks() {
 			e.mCfg.GossipStrategyOut = gsrc
 			nd.gossipIn = gdst
 			go vzRelay(ctx, s, id, "gossip", gsrc, gdst, func(u tmelink.NetworkViewUpdate) { w.orc.onGossipUpdate(nd, u) })
+			// proposed-header fetch requests of the mirror are recorded (nothing is ever fetched)
+			freq := make(chan tmelink.ProposedHeaderFetchRequest, 256)
+			e.mCfg.ProposedHeaderFetcher = tmelink.ProposedHeaderFetcher{FetchRequests: freq, FetchedProposedHeaders: make(chan tmconsensus.ProposedHeader)}
+			go func() {
+				for {
+					select {
+					case <-ctx.Done():
+						return
+					case r := <-freq:
+						w.orc.onFetchRequest(nd, r.Height, r.BlockHash)
+					}
+				}
+			}()
 			return
 		}
 		// The view and round-entrance channels between mirror and state machine stay untouched:
